@@ -72,14 +72,19 @@ func (r *FunctionData[T]) UpdateData(remoteWrite, persist bool, newData *T, filt
 		return nil, model.NewErrorTypeFromString(fmt.Sprintf("partial updates are not supported for type '%s'", util.Type[T]().Name()))
 	}
 
-	if r.data == nil {
-		r.data = new(T)
+	target := r.data
+	if target == nil {
+		target = new(T)
 	}
 
-	updater := any(r.data).(model.Updater)
+	updater := any(target).(model.Updater)
 	data, success := updater.UpdateList(remoteWrite, persist, newData, filterPartial, filterDelete)
 	if !success {
 		return nil, model.NewErrorTypeFromString("update failed, likely not allowed to write")
+	}
+
+	if persist {
+		r.data = target
 	}
 
 	return data, nil
